@@ -103,4 +103,22 @@ def FaithfulTxnHist (cfg : Cfg) (L : List LUnit) : PState → List Block → Pro
   | _, [] => True
   | st, b :: bs => FaithfulTxnResp cfg L st b ∧ FaithfulTxnHist cfg L (parseBlock cfg st b).2.1 bs
 
+/-! ### the FetchRequest the consumer builds (brokerConsumer.fetchNewMessages)
+
+A broker answers according to the isolation level carried by the REQUEST (read committed: data below the last
+stable offset plus the aborted-transaction index; read uncommitted: data up to the high watermark, no index), so
+`FaithfulTxnData` can only be expected if the request carries the configured isolation level. -/
+
+/-- the Kafka-version thresholds of fetchNewMessages in ascending order: 0.9, 0.10.0, 0.10.1, 0.11, 1.1, 2.1, 2.3;
+    `level` = how many of them `Config.Version` reaches (IsAtLeast is monotone) -/
+def fetchVersionOf : Nat → Int
+  | 0 => 0 | 1 => 1 | 2 => 2 | 3 => 3 | 4 => 4 | 5 => 7 | 6 => 10 | _ => 11
+
+/-- expected request fields (Version, MaxBytes, Isolation, SessionID, SessionEpoch, RackID) for a configuration
+    reaching `level` thresholds; `mrs` = MaxResponseSize, `cfgIso` = Consumer.IsolationLevel, `cfgRack` = RackID;
+    fields not set keep Go's zero value -/
+def fetchRequestSpec (level : Nat) (mrs cfgIso cfgRack : Int) : Int × Int × Int × Int × Int × Int :=
+  (fetchVersionOf level, if 3 ≤ level then mrs else 0, if 4 ≤ level then cfgIso else 0, 0,
+   if 5 ≤ level then -1 else 0, if 7 ≤ level then cfgRack else 0)
+
 end Model.Txn
